@@ -2,7 +2,16 @@
    Statements are pinned by coq/statements/C08.json; ./check compares. *)
 From Coq Require Import Bool List NArith ZArith Lia.
 From M Require Chunk.
+From M Require LexCut.
+From M Require MultiMsg.
+From M Require EmptyMsg.
+From M Require Chunk.
+From M Require Fuel.
+From M Require Isolation.
+From M Require LexBounds.
+From M Require LexModel.
 From M Require ParserModel.
+From M Require UnitProgress.
 Import ListNotations.
 
 Module T_pending_is_prefix. Import Chunk. Local Open Scope bool_scope. Local Open Scope Z_scope.
@@ -98,4 +107,65 @@ Theorem C08_one_message_any_partition :
 Proof. exact (@Chunk.one_message_any_partition). Qed.
 End T_one_message_any_partition.
 Definition C08_one_message_any_partition := @T_one_message_any_partition.C08_one_message_any_partition.
+
+Module T_detect_cut. Import LexCut. Local Open Scope bool_scope. Local Open Scope Z_scope.
+Import LexModel LexBounds UnitProgress. Local Open Scope Z_scope.
+Theorem C08_detect_cut :
+  forall a t z,
+  plain a -> tchar t -> detect_unit (a ++ t :: z) = detect_t a t.
+Proof. exact (@LexCut.detect_cut). Qed.
+End T_detect_cut.
+Definition C08_detect_cut := @T_detect_cut.C08_detect_cut.
+
+Module T_scan_msg. Import MultiMsg. Local Open Scope bool_scope. Local Open Scope Z_scope.
+Import ParserModel Chunk Fuel. Local Open Scope Z_scope.
+Theorem C08_scan_msg :
+  forall d a0 rest,
+  seg a0 -> forall f tot c res, mem c = a0 ++ 10%N :: rest -> 0 <= tot <= Z.of_nat (length a0) ->
+  (Z.to_nat (Z.of_nat (length a0) - tot) < f)%nat ->
+  exists k, (1 <= k <= f)%nat /\ Z.of_nat k <= Z.of_nat (length a0) + 1 - tot /\
+    input_loop f c tot res d =
+      (let '(c1, res1) := scpi_parse c (Z.of_nat (length a0) + 1) d in
+       input_loop (f - k) (upd_mem c1 (dropm (mem c1) (Z.of_nat (length a0) + 1))) 0 res1 d).
+Proof. exact (@MultiMsg.scan_msg). Qed.
+End T_scan_msg.
+Definition C08_scan_msg := @T_scan_msg.C08_scan_msg.
+
+Module T_scpi_parse_tail. Import MultiMsg. Local Open Scope bool_scope. Local Open Scope Z_scope.
+Import ParserModel Chunk Fuel. Local Open Scope Z_scope.
+Theorem C08_scpi_parse_tail :
+  forall c n d,
+  0 <= n <= Z.of_nat (length (mem c)) -> dropm (mem (fst (scpi_parse c n d))) n = dropm (mem c) n.
+Proof. exact (@MultiMsg.scpi_parse_tail). Qed.
+End T_scpi_parse_tail.
+Definition C08_scpi_parse_tail := @T_scpi_parse_tail.C08_scpi_parse_tail.
+
+Module T_parse_is_local. Import MultiMsg. Local Open Scope bool_scope. Local Open Scope Z_scope.
+Import ParserModel Chunk Fuel. Local Open Scope Z_scope.
+Theorem C08_parse_is_local :
+  forall d,
+  parse_local d.
+Proof. exact (@MultiMsg.parse_is_local). Qed.
+End T_parse_is_local.
+Definition C08_parse_is_local := @T_parse_is_local.C08_parse_is_local.
+
+Module T_ok_stream_any_partition_all. Import MultiMsg. Local Open Scope bool_scope. Local Open Scope Z_scope.
+Import ParserModel Chunk Fuel. Local Open Scope Z_scope.
+Theorem C08_ok_stream_any_partition_all :
+  forall d chunks c,
+  chunks <> [] -> Forall (fun x => x <> []) chunks -> ok_class c (concat chunks) ->
+  feed c chunks d = fst (input_core c (concat chunks) d).
+Proof. exact (@MultiMsg.ok_stream_any_partition_all). Qed.
+End T_ok_stream_any_partition_all.
+Definition C08_ok_stream_any_partition_all := @T_ok_stream_any_partition_all.C08_ok_stream_any_partition_all.
+
+Module T_empty_message_silent. Import EmptyMsg. Local Open Scope bool_scope. Local Open Scope Z_scope.
+Import ParserModel Chunk Isolation. Local Open Scope Z_scope.
+Theorem C08_empty_message_silent :
+  forall c t d,
+  mem c = [] -> (t = 10%N \/ t = 13%N) -> 2 <= cap c -> first_output c = true ->
+  E c (fst (input_core c [t] d)) /\ snd (input_core c [t] d) = true.
+Proof. exact (@EmptyMsg.empty_message_silent). Qed.
+End T_empty_message_silent.
+Definition C08_empty_message_silent := @T_empty_message_silent.C08_empty_message_silent.
 
